@@ -111,13 +111,23 @@ func newTx(db *DB, writable bool) (tx *Tx, err error) {
 }
 
 // getTxID returns the tx id.
+// The ids of one DB come from a single snowflake node: a node built per
+// transaction restarts its sequence at 0 every time, so two transactions that
+// begin within the same millisecond would get the same id, and the records of
+// a failed transaction would be taken for those of a committed one.
 func (tx *Tx) getTxID() (id uint64, err error) {
-	node, err := snowflake.NewNode(tx.db.opt.NodeNum)
-	if err != nil {
-		return 0, err
+	tx.db.txIDMu.Lock()
+	defer tx.db.txIDMu.Unlock()
+
+	if tx.db.txIDNode == nil {
+		node, err := snowflake.NewNode(tx.db.opt.NodeNum)
+		if err != nil {
+			return 0, err
+		}
+		tx.db.txIDNode = node
 	}
 
-	id = uint64(node.Generate().Int64())
+	id = uint64(tx.db.txIDNode.Generate().Int64())
 
 	return
 }
